@@ -560,6 +560,31 @@ def rule_weightrange(ctx):
     if not found and caught:
         yield ob(R, f, "io.load_tempo:weight-closed-range", False, "the weight range test only raises inside the try block whose handler turns ValueError into a warning: a weight outside [0, 1] is returned instead of being rejected", node=caught[0].node)
         return
+    if not found:
+        # bounds that are almost 0 and 1 (-1e-6, 1 + 1e-6): a widened range accepts weights the format forbids
+        for r in s.by_kind("raise"):
+            if symeval.pc_in_try(r.pc):
+                continue
+            for c, pol in symeval.pc_conds(r.pc):
+                near = []
+                for x in tm.walk(c):
+                    if x.op == "cmp" and x.a[0] in ("<", "<="):
+                        for z in x.a[1:]:
+                            zz = z
+                            if zz.op == "bin" and zz.a[0] in ("+", "-") and all(_is_num_const(y) for y in zz.a[1:]):
+                                v = zz.a[1].a[0] + zz.a[2].a[0] if zz.a[0] == "+" else zz.a[1].a[0] - zz.a[2].a[0]
+                                near.append(v)
+                            elif zz.op == "un" and zz.a[0] == "-" and _is_num_const(zz.a[1]):
+                                near.append(-zz.a[1].a[0])
+                            elif _is_num_const(zz):
+                                near.append(zz.a[0])
+                odd = [v for v in near if v not in (0, 1) and (-0.5 < v < 0.5 or 0.5 < v < 1.5)]
+                if len(near) >= 2 and odd:
+                    found = True
+                    yield ob(R, f, "io.load_tempo:weight-closed-range", False, "the weight test compares with %s instead of 0 and 1: weights outside the closed interval [0, 1] are accepted" % ", ".join(repr(v) for v in sorted(set(near))), node=r.node)
+                    break
+            if found:
+                break
     need(found, R, "load_tempo: weight range test not found")
 
 
